@@ -7,6 +7,7 @@
 // fn 2: (arg ...)                               -> ranges built by NewCapability
 // fn 3: (cmpid ((id (arg ...)) ...) (v ...))    -> per version: (err-tree (id b) ...) = SetCapability call log
 // fn 9: (cmpid a b)                             -> () | (z)   comparer outcome
+// fn 4, 5, 6, 7: capability objects identified by position, see objects.go
 // All versions are indices into the grid; cmpid 0 = nil comparer (default path), 1 = VersionCompareSemantic
 // passed explicitly, 2 = reverse lexicographic custom comparer, 3 = chaotic custom comparer.
 package main
@@ -650,6 +651,9 @@ func main() {
 			target(cmpid, []capSpec{{1, a}, {2, []int{g.anyStr(), g.anyStr()}}}, fmt.Sprintf("malformed;cmp=%d", cmpid))
 		}
 	}
+
+	// --- 4. capability objects with shared descriptions, struct literals, and the other exported entry points
+	genObjects(g, add, thorough)
 
 	// run the implementation (parallel, deterministic output order)
 	var wg sync.WaitGroup
